@@ -52,22 +52,14 @@ const (
 const allE = "C20.E1 C20.E2 C20.E3 C20.E4 C20.E5"
 
 var kfs = []kf{
-	{idOrder, "exporter: Write() emits all paragraphs and then all tables (writer.go:76-99 GetParagraphs, then GetTables) instead of walking Body.Elements: a table that precedes a later text block comes out after it (goldmark reading and re-imported body = body with the tables moved to the end)",
-		[]part{{"C20.E1 C20.E4", tableBeforeLaterBlock, true}}},
 	{idNoEscape, "exporter: formatRunText/extractCellText write run text without escaping (writer.go:333): text containing Markdown syntax ('a*b*c', '[a](b)', '&amp;', '<b>', '`', '|' in a cell, '#'/'-'/'1.' at a line start) is read as markup: text lost or invented, block kinds change",
 		[]part{{"C20.E1 C20.E2 C20.E3", hasSyntaxText, false}}},
 	{idEscapeRT, "round trip of text containing Markdown syntax: export -> ConvertString does not give the text back; today because the exporter does not escape (KF-C20-no-escape), and escaping alone cannot repair it because the importer copies backslash escapes and entities raw (KF-C19-escape-raw) and drops autolinks/inline HTML",
 		[]part{{"C20.E4 C20.E5", hasSyntaxText, false}}},
-	{idEdgeBlank, "exporter: emphasis delimiters are placed outside the blanks at the edges of a formatted run (or of a heading, whose runs carry the style's bold/italic): 'a** b **c' is not emphasis in CommonMark, the delimiters become text",
-		[]part{{allE, hasEdgeBlankFormatted, false}}},
 	{idDelimContext, "exporter: each run is wrapped in delimiters without regard to the neighbouring run: delimiters of touching formatted runs fuse ('**a****b**' reads 'a****b'), '_' italic next to a letter or digit ('x_a_y') and the outer '~~' of '~~**x**~~' next to a letter or digit are not delimiter runs by the flanking rules and stay literal",
 		[]part{{allE, hasDelimiterContext, false}}},
-	{idCodeCombined, "exporter: a code-font run that is also bold/italic/strike gets its emphasis delimiters inside the code span ('`**x**`', writer.go:341-359 wraps emphasis first, backticks last): they become literal text of the code span",
-		[]part{{"C20.E1 C20.E2 C20.E3 C20.E4", hasCodeCombined, false}}},
-	{idListNoBlank, "exporter: writeListItem ends an item with a single newline and nothing closes the list: a following paragraph, table or setext heading is swallowed as a lazy continuation line of the item ('- a\\nb' reads as one item 'a b')",
-		[]part{{"C20.E1 C20.E2 C20.E4 C20.E5", hasListLazy, false}}},
-	{idSimpleTable, "exporter: with UseGFMTables off a table is written as lines 'a | b' with '**' around the first (writeSimpleTable): Markdown reads one paragraph (cells glued with ' | ', table lost); already bold header cells give '****a** | **b****'",
-		[]part{{allE, func(c Case) bool { return !c.O.GFM && hasKind(c, "table") }, false}}},
+	{idSimpleTable, "exporter: with UseGFMTables off a table is written as lines 'a | b' with '**' around the first (writeSimpleTable), which is not a Markdown table: it reads (and comes back) as paragraph text - one paragraph 'a | b c | d' for a full table, split at rows of empty cells, with literal '**' when the first row begins or ends with an empty cell; already bold header cells give '****a** | **b****'",
+		[]part{{allE, hasSimpleTable, true}}},
 	{idMetadata, "IncludeMetadata writes a '---' front matter block that the library's own converter (no front matter support) reads back as a thematic break and a setext heading 'title: \"Document\"': the round trip gains a heading, the second export differs",
 		[]part{{"C20.E4 C20.E5", func(c Case) bool { return c.O.Meta }, true}}},
 	{idListReimport, "importer (renderer.go:261-268): a list item is converted to a normal paragraph with a literal '• ' prepended (no numbering properties): list items do not survive the round trip, the second export has '• a' paragraphs instead of '- a' items",
@@ -182,7 +174,10 @@ type effect struct {
 var effects = []effect{
 	{id: idListReimport, active: hasVisibleListItem, seq4: bulletParagraphs, norm5: normBullets,
 		loose5: func(c Case) bool { return c.O.Wrap }}, // "• text" is a normal paragraph: it is wrapped, the item was not
-	{id: idOrder, active: tableBeforeLaterBlock, seq1: tablesLast, seq4: tablesLast},
+	{id: idSimpleTable, active: hasSimpleTable, seq1: simpleTableParagraphs,
+		seq4:   func(bs []Blk) []Blk { return dropOther(simpleTableParagraphs(bs)) }, // a thematic break comes back as an empty paragraph
+		norm5:  func(_ Case, md string) string { return stripChars(md, "*_") },       // '****a** | **b****' comes back as one bold run
+		loose5: func(c Case) bool { return true }},                                   // and the row lines as one line
 	{id: idMetadata, active: func(c Case) bool { return c.O.Meta }, norm5: normFrontMatter,
 		seq4: func(bs []Blk) []Blk { return append([]Blk{{Kind: "h", Level: 2, Text: `title: "Document"`}}, bs...) }},
 	{id: idCodeNewline, active: hasVisibleCode, norm5: func(_ Case, md string) string { return strings.ReplaceAll(md, "\n\n```\n\n", "\n```\n\n") }}, // closing fences only (an opening fence is followed by the code line)
@@ -222,6 +217,55 @@ func explain(c Case, usable func(e effect) bool, same func(sel []effect) bool) s
 		}
 	}
 	return ""
+}
+
+func hasSimpleTable(c Case) bool { return !c.O.GFM && hasKind(c, "table") }
+
+// simpleTableText: the lines the open simple-table finding describes for one table - cells joined with " | ",
+// "**" around the first row (bold header cells carry their own "**").
+func simpleTableText(b Blk) string {
+	var sb strings.Builder
+	for i, row := range b.Cells {
+		cells := make([]string, len(row))
+		for j, c := range row {
+			c = strings.TrimSpace(c)
+			if i == 0 && b.HdrBold && c != "" {
+				c = "**" + c + "**"
+			}
+			cells[j] = c
+		}
+		line := strings.Join(cells, " | ")
+		if i == 0 {
+			line = "**" + line + "**"
+		}
+		sb.WriteString(line + "\n")
+	}
+	sb.WriteString("\n")
+	return sb.String()
+}
+
+// simpleTableParagraphs: every table replaced by what those lines are as a block of their own
+// (the reference reading of exactly those lines, standing alone between blank lines).
+func simpleTableParagraphs(bs []Blk) []Blk {
+	var out []Blk
+	for _, b := range bs {
+		if b.Kind == "table" {
+			out = append(out, ParseMD(simpleTableText(b))...)
+		} else {
+			out = append(out, b)
+		}
+	}
+	return out
+}
+
+func dropOther(bs []Blk) []Blk {
+	var out []Blk
+	for _, b := range bs {
+		if b.Kind != "other" {
+			out = append(out, b)
+		}
+	}
+	return out
 }
 
 func tablesLast(bs []Blk) []Blk {
@@ -464,8 +508,7 @@ func fuse(r1, r2 Run) bool {
 	if (r1.C && r2.C) || (r1.S && r2.S) {
 		return true
 	}
-	// equal single emphasis on both sides; whether a code font run counts as well depends on where the exporter
-	// puts its backticks (outermost today, innermost with proposed_fixes/C20-code-inner.patch): both are covered
+	// equal single emphasis on both sides (a code-font run counts with its emphasis: the backticks are innermost)
 	e1, e2 := r1.mask()&(mB|mI), r2.mask()&(mB|mI)
 	return !r1.S && !r2.S && e1 == e2 && (e1 == mB || e1 == mI)
 }
@@ -532,6 +575,20 @@ func hasDelimiterContext(c Case) bool {
 					next = []rune(rs[i+1].T)[0]
 				}
 			}
+			// the run's own edge blanks are written outside its delimiters
+			core := strings.TrimSpace(r.T)
+			if core == "" {
+				continue // a formatted run of blanks only is written as it is
+			}
+			if core != r.T {
+				all := []rune(r.T)
+				if unicode.IsSpace(all[0]) {
+					prev = ' '
+				}
+				if unicode.IsSpace(all[len(all)-1]) {
+					next = ' '
+				}
+			}
 			plainTouch := func(x rune) bool { return x != '*' && !unicode.IsSpace(x) }
 			if c.O.Emph == "_" && r.I && !r.B && !r.S && (plainTouch(prev) || plainTouch(next)) {
 				return true // (b)
@@ -542,7 +599,7 @@ func hasDelimiterContext(c Case) bool {
 			if r.C && (r.B || r.I || r.S) && (!unicode.IsSpace(prev) || !unicode.IsSpace(next)) {
 				return true // (d)
 			}
-			rt := []rune(r.T)
+			rt := []rune(core)
 			punct := func(x rune) bool { return !wordChar(x) && !unicode.IsSpace(x) }
 			if !r.C && (punct(rt[0]) || punct(rt[len(rt)-1])) {
 				return true // (e)
@@ -550,80 +607,8 @@ func hasDelimiterContext(c Case) bool {
 			if (prev != '*' && punct(prev)) || (next != '*' && punct(next)) {
 				return true // (f)
 			}
-			if r.C && syntaxInline(r.T) {
+			if r.C && syntaxInline(core) {
 				return true // (g)
-			}
-		}
-	}
-	return false
-}
-
-func hasCodeCombined(c Case) bool {
-	for _, b := range c.Blocks {
-		if b.K != "p" {
-			continue
-		}
-		for _, r := range b.Runs {
-			if r.C && (r.B || r.I || r.S) && r.T != "" {
-				return true
-			}
-		}
-	}
-	return false
-}
-
-// a visible list item is directly followed in the output by a block that cannot interrupt a paragraph
-// (normal paragraph, table, setext heading). "Directly followed" is evaluated for the body order and for
-// the paragraphs-then-tables order of the open order finding.
-func hasListLazy(c Case) bool {
-	lazy := func(n Block, withTable bool) bool {
-		switch n.K {
-		case "p":
-			return true
-		case "table":
-			return withTable
-		case "h":
-			return c.O.Setext && n.Level <= 2
-		}
-		return false
-	}
-	for i, it := range c.Blocks {
-		if it.K != "li" || blank(it.T) {
-			continue
-		}
-		var next, nextText *Block
-		for j := i + 1; j < len(c.Blocks); j++ {
-			n := c.Blocks[j]
-			if !visible(n) {
-				if n.K == "empty" || n.K == "p" {
-					break // an empty paragraph is written as a blank line: the item ends there
-				}
-				continue // blank heading / quote / code / list item: nothing is written
-			}
-			if next == nil {
-				next = &c.Blocks[j]
-			}
-			if n.K != "table" {
-				nextText = &c.Blocks[j]
-				break
-			}
-		}
-		if next != nil && lazy(*next, true) {
-			return true
-		}
-		if nextText != nil && lazy(*nextText, false) {
-			return true
-		}
-		if nextText == nil && hasKind(c, "table") {
-			// is the item the last text block written? then the first table follows it
-			last := true
-			for j := i + 1; j < len(c.Blocks); j++ {
-				if c.Blocks[j].K != "table" && (visible(c.Blocks[j]) || c.Blocks[j].K == "empty" || c.Blocks[j].K == "p") {
-					last = false
-				}
-			}
-			if last {
-				return true
 			}
 		}
 	}
